@@ -388,7 +388,64 @@ def call_tree(f, t, nm, args):
                     return str(int(sc))
             except Exception:
                 pass
+    if nm in ("transpose", "ok") and len(args) == 1 and len(t["args"]) == 1 and _operand_adt(f, t["args"][0]) in _WRAP_ADTS:
+        return args[0]          # Option<Result<T>> <-> Result<Option<T>>, Result -> Option: the payload is the same value
+    if nm in ("map", "and_then") and len(args) == 2 and args[1].startswith("closure{") and args[1].endswith("}") and _operand_adt(f, t["args"][0]) in _WRAP_ADTS:
+        # opt.map(|x| body(x)) on an Option / Result is body(payload): the same value a `match opt { Some(x) => body(x), .. }` computes
+        body = args[1][len("closure{"):-1]
+        sub = _subst_free(body, "a2", args[0])
+        if sub != body and not re.search(r"(?<![\w.])a[3-9](?![\w])", body):
+            return sub          # (a closure that was not inlined - depth bound - shows its captures only and is left alone)
     return mk_call(nm, args)
+
+
+_WRAP_ADTS = ("core::option::Option", "core::result::Result")
+
+
+def _subst_free(body, var, repl):
+    """replace the free occurrences of closure parameter `var` in a closure body tree (occurrences inside a nested closure{..} are
+    that closure's own parameter)"""
+    out = ""
+    i = 0
+    n = len(body)
+    while i < n:
+        if body.startswith("closure{", i):
+            d = 0
+            j = i + len("closure")
+            while j < n:
+                if body[j] == "{":
+                    d += 1
+                elif body[j] == "}":
+                    d -= 1
+                    if d == 0:
+                        break
+                j += 1
+            out += body[i:j + 1]
+            i = j + 1
+            continue
+        m = re.compile(r"(?<![\w.])%s(?![\w])" % re.escape(var)).match(body, i)
+        if m and (i == 0 or not (body[i - 1].isalnum() or body[i - 1] in "_.")):
+            out += repl
+            i = m.end()
+            continue
+        out += body[i]
+        i += 1
+    return out
+
+
+def _operand_adt(f, o):
+    try:
+        p = op_place(o)
+        if p is None:
+            return None
+        ty = f.ty(p["t"]) if (p.get("p") and "t" in p) else f.local_ty(p["l"])
+        hops = 0
+        while ty.get("k") == "ref" and hops < 3:
+            ty = f.ty(ty["to"])
+            hops += 1
+        return ty.get("adt")
+    except Exception:
+        return None
 
 
 _WRAP = ("Result::Ok{", "Option::Some{", "ControlFlow::Continue{")
